@@ -1,4 +1,5 @@
 import Zc.Model.ReplyNet
+import Zc.Model.NameText
 import Driver.C12
 /-! driver commands for C11's socket level (`Model/ReplyNet.lean`): `c11net` (trace acceptance with the physical datagrams of
 every block: socket, complete destination sockaddr, id, flags, questions, class fields), `c11bytes` (the two reply constructors
@@ -24,7 +25,7 @@ def pPeer : Tok (Nat × Ip × FlowScope) := do
   pure (a, .peer ip c, fs)
 
 def pQs : Tok (Nat × List EQuestion) := do
-  let d ← Tok.nat; let qs ← Tok.list EQuestion.parse
+  let d ← Tok.nat; let qs ← Tok.list (EQuestion.parseN NameText.Tok.nameT)
   pure (d, qs)
 
 def pKind : Tok (Option RKind) := do
@@ -83,13 +84,15 @@ def runPrefix (w : World) : Host → Int → List Ev → List String → List St
     | .error m => (acc.reverse, some m)
     | .ok (r, ds) => runPrefix w r.host e.time es (s!"{C12.evOutStr (e.time, r.outs, r.draws)} ;; {physStr w ds}" :: acc)
 
-/-- `c11net <known answers numbered without the scope id: 0/1> <world> <events>` → `ok | <outs draws ;; datagrams> | …` or
+/-- `c11net <known answers numbered without the scope id: 0/1> <seen snapshot scope-blind: 0/1> <world> <events>` → `ok | <outs draws ;; datagrams> | …` or
 `reject <index> <reason> | …`.  The first flag is how the harness numbered the known answers of packets received on an IPv6 socket
 (`reply_common.parse_query`); it must be what the translated tree does (`resp_known_unscoped` for a message with a scope id). -/
 def c11net (toks : List String) : String :=
-  match (do let ku ← Tok.bool; let w ← pWorld; let evs ← Tok.list C12.pEv; Tok.done; pure (ku, w, evs) : Tok (Bool × World × List Ev)).run toks with
-  | some ((ku, w, evs), _) =>
+  match (do let ku ← Tok.bool; let sb ← Tok.bool; let w ← pWorld; let evs ← Tok.list C12.pEv; Tok.done
+            pure (ku, sb, w, evs) : Tok (Bool × Bool × World × List Ev)).run toks with
+  | some ((ku, sb, w, evs), _) =>
     if ku != Gen.ReplyNet.resp_known_unscoped false then "reject 0 known-answers-numbered-for-the-other-tree |" else
+    if sb != Gen.ReplyNet.qu_lookup_ignores_scope then "reject 0 seen-snapshot-taken-for-the-other-tree |" else
     let (outs, err) := runPrefix w {} (evs.head?.map Ev.time |>.getD 0) evs []
     let body := " | ".intercalate outs
     match err with
@@ -103,9 +106,9 @@ the bytes `packets()` gives for the `DNSOutgoing` built by `construct_outgoing_u
 def c11bytes (toks : List String) : String :=
   match (do
     let uc ← Tok.bool; let us ← Tok.bool; let id ← Tok.nat
-    let qs ← Tok.list EQuestion.parse
-    let ans ← Tok.list ERecord.parse
-    let adds ← Tok.list ERecord.parse
+    let qs ← Tok.list (EQuestion.parseN NameText.Tok.nameT)
+    let ans ← Tok.list (ERecord.parseN NameText.Tok.nameT)
+    let adds ← Tok.list (ERecord.parseN NameText.Tok.nameT)
     Tok.done
     pure (uc, us, id, qs, ans, adds) : Tok _).run toks with
   | some ((uc, us, id, qs, ans, adds), _) =>
